@@ -234,8 +234,8 @@ package node
 //@   assumes[unfold] isNamer(c.Name) && wfAST(c.Name) && (forall k :: 0 <= k && k < len(c.Arguments.Elems) ==> exprOK(c.Arguments.Elems[k]))
 //@   loop 0 invariant[args] -1 <= rangeindex && emitInv(cr)
 //@ pred isIntOne(n Type) bool := dyntype(n) == typeid[Int]() && n.(Int) == 1
-//@ func (Assign).byteCode [C05,C12,C04] implements ByteCoder.byteCode
-//@   atcall bytecode.New(bytecode.INC) with (callee_op bytecode.OpCode) requires[inc_only_for_self_plus_one;C12,C01,C04] dyntype(a.Value) == typeid[BinOp]() && a.Value.(BinOp).Op == "+"
+//@ func (Assign).byteCode [C05,C12,C04,C11] implements ByteCoder.byteCode
+//@   atcall bytecode.New(bytecode.INC) with (callee_op bytecode.OpCode) requires[inc_only_for_self_plus_one;C12,C01,C04,C11] dyntype(a.Value) == typeid[BinOp]() && a.Value.(BinOp).Op == "+"
 //@       && ((isIntOne(a.Value.(BinOp).Right) && a.Value.(BinOp).Left == a.VarRef) || (isIntOne(a.Value.(BinOp).Left) && a.Value.(BinOp).Right == a.VarRef))   // `x = x + 1` and `x = 1 + x` only: the increment instruction adds one to its own operand
 //@   assumes[unfold] exprOK(a.Value) && wfAST(a.VarRef) && (dyntype(a.VarRef) == typeid[Name]() || dyntype(a.VarRef) == typeid[Local]())
 //@ fun isOperatorOpc(op bytecode.OpCode) bool := op == bytecode.ADD || op == bytecode.SUB || op == bytecode.MUL || op == bytecode.DIV || op == bytecode.MOD
